@@ -100,6 +100,10 @@ def step (line : String) : String :=
       if b.length < o + l then "bad-op" else
       match rrData b o l t with | some d => "ok " ++ showBytes d | none => "err"
     | _, _, _, _ => "bad-op"
+  | ["wfascii", h, q, an, ns, ar] =>
+    match parseMsg h q an ns ar with
+    | some m => if wellFormedAscii m then "1" else "0"
+    | none => "bad-op"
   | ["plain", ty, h] =>
     match ty.toNat?, hexOr h with
     | some t, some d => if rdataPlain t d then "1" else "0"
